@@ -282,7 +282,8 @@ func checkC03(p *Prog, res *Result, tier string) {
 	// ---- R4 ----
 	sub13 := p.subResult("C13", tier)
 	for _, o := range sub13.Obls {
-		if o.Rule == "C13-R5" || o.Rule == "C13-R6" || o.Rule == "C13-R8" {
+		// (C13-R3: every partition is scanned by exactly one worker, with its own configuration, and joined before the merge)
+		if o.Rule == "C13-R5" || o.Rule == "C13-R6" || o.Rule == "C13-R8" || o.Rule == "C13-R3" {
 			res.add("C03-R4", o.Rule+" "+o.Construct, o.Status, o.Pos, o.Detail)
 		}
 	}
